@@ -6,9 +6,8 @@ import MxlVerif.Model.C12
 open Lean Mxl Mxl.Wire Mxl.C12
 namespace Driver.H_c12
 
-partial def jSExpr (j : Json) : Except String SExpr := do
+partial def jSExpr (j : Json) : Except String BExpr := do
   match ← jArr j with
-  | [.str "s", n] => pure (.sym (← jStr n))
   | [.str "a", i] => pure (.arg (← jNat i))
   | [.str "c", q] => pure (.const (← jRat q))
   | [.str "+", a, b] => pure (.add (← jSExpr a) (← jSExpr b))
@@ -52,9 +51,9 @@ def okJ (b : Bool) : Json := .bool b
     vanishes (the comparison is then skipped: Python raises `ZeroDivisionError` there) -/
 def evalAt (es : List SExpr) (vn : List String) (ρ : String → Rat) : Json :=
   let jac := jacobianOf es vn
-  if es.all (denOKb ρ []) && jac.all (fun row => row.all (denOKb ρ [])) then
-    Json.mkObj [("eqs", ratsJ (es.map (evalS ρ []))),
-                ("jac", matJ (jac.map fun row => row.map (evalS ρ [])))]
+  if es.all (denOKb ρ) && jac.all (fun row => row.all (denOKb ρ)) then
+    Json.mkObj [("eqs", ratsJ (es.map (evalS ρ))),
+                ("jac", matJ (jac.map fun row => row.map (evalS ρ)))]
   else .null
 
 def statusJ {α} : Except Err α → Json
@@ -84,6 +83,7 @@ def handle (j : Json) : Except String Json := do
   pure (Json.mkObj [
     ("sym", statusJ sym), ("decl", statusJ (toSymbolicDeclOrder c)), ("spec", statusJ spec),
     ("has_jac", .bool (simJacobian c).isSome), ("jacargs", ja),
+    ("wf", .bool c.wf), ("convertible", .bool c.convertible),
     ("points", .arr perPoint.toArray)])
 
 end Driver.H_c12
